@@ -175,7 +175,10 @@ impl<'a> Exec<'a> {
 
     fn lang(&mut self, tag: &str) -> &Lang {
         if !self.langs.contains_key(tag) {
-            self.langs.insert(tag.to_string(), sut::make_lang(tag));
+            // building a language runs library code: a panic there is reported through the
+            // simulated thread that builds the same language, here we fall back to the empty one
+            let l = crate::kernel::guarded(|| sut::make_lang(tag)).unwrap_or_else(|_| Lang::new());
+            self.langs.insert(tag.to_string(), l);
         }
         &self.langs[tag]
     }
@@ -574,9 +577,11 @@ impl<'a> Exec<'a> {
         self.abstract_state(s);
 
         let model = self.stores[&s].model.clone();
+        // harness-side use of the public tokeniser is guarded too: if it panics (then the search
+        // under test has panicked on the same input as well) the oracles that need it are skipped
         let nwords = {
             let lang = self.lang(&model.lang);
-            sut::query_words(q, lang)
+            crate::kernel::guarded(|| sut::query_words(q, lang)).unwrap_or(usize::MAX)
         };
         {
             let slot = self.stores.get_mut(&s).unwrap();
@@ -673,7 +678,10 @@ impl<'a> Exec<'a> {
         }
         let chars: Vec<Vec<char>> = {
             let lang = self.lang(&model.lang);
-            model.recs.iter().map(|(_, t, _)| sut::record_chars(t, lang)).collect()
+            match crate::kernel::guarded(|| model.recs.iter().map(|(_, t, _)| sut::record_chars(t, lang)).collect()) {
+                Ok(c) => c,
+                Err(_) => return,
+            }
         };
         let mut by_id: HashMap<usize, usize> = HashMap::new();
         let mut ids_unique = true;
@@ -876,12 +884,20 @@ impl<'a> Exec<'a> {
         let model = self.stores[&s].model.clone();
         let (qgrams, rgrams) = {
             let lang = self.lang(&model.lang);
-            let qw = sut::query_word_chars(q, lang);
+            let toks = crate::kernel::guarded(|| {
+                let qw = sut::query_word_chars(q, lang);
+                let rw: Vec<_> = model.recs.iter().map(|(_, t, _)| sut::record_word_chars(t, lang)).collect();
+                (qw, rw)
+            });
+            let (qw, rw) = match toks {
+                Ok(x) => x,
+                Err(_) => return,
+            };
             if qw.is_empty() {
                 return; // the property speaks of queries with at least one word
             }
             let qg = sut::gram_set(&qw);
-            let rg: Vec<_> = model.recs.iter().map(|(_, t, _)| sut::gram_set(&sut::record_word_chars(t, lang))).collect();
+            let rg: Vec<_> = rw.iter().map(|w| sut::gram_set(w)).collect();
             (qg, rg)
         };
         self.out.evals += 1;
